@@ -65,6 +65,29 @@ def run(ctx):
                'the O(1) vocabulary', False, offenders['unsupported-construct'])
     ctx.floor('C09.R1', len(seen), 8, 'distinct operations applied to the checked object')
 
+    # ---- R5 ----------------------------------------------------------------------
+    ctx.rule('C09.R5', 'at most one item per container node reached: in the generated code of every enumerated shape no item read '
+             '(a subscription of, or next(iter(·)) on, a part of the checked object) is evaluated at two places under one '
+             'occurrence of the type test of its container — a read whose result is needed by several members of a union or '
+             'several validators is bound once by an assignment expression and reused (terms compared after expanding '
+             'assignment expressions, so the same read spelled through a pith variable is the same read; two container members '
+             'of one union each carry their own type test and each read their own item)')
+    groups = collections.defaultdict(lambda: [0, 0, None])
+    for d in sw:
+        if d['status'] != 'ok' or 'item_reads' not in d:
+            continue
+        g = groups[d['root']]
+        g[0] += 1
+        g[1] += d['item_reads']
+        if d['item_reads_repeated'] and g[2] is None:
+            g[2] = f'{d["shape"]} (is_random={d["is_random"]}): evaluated more than once: {d["item_reads_repeated"][0][:200]}'
+    for root, (n_, reads, why) in sorted(groups.items()):
+        if not reads:
+            continue
+        ctx.ob('C09.R5', f'single-read:{root}', CODEMAIN, f'{n_} shapes rooted at {root}: each of their {reads} item reads is '
+               'evaluated at one place', why is None, why or '')
+    ctx.floor('C09.R5', sum(g[1] for g in groups.values()), 200, 'item reads in generated code')
+
     # ---- R2 ----------------------------------------------------------------------
     ctx.rule('C09.R2', 'in the quasi-iterable production (Container / Iterable / Reversible) every item access is '
              'dominated, in short-circuit order, by isinstance(pith, Collection) and a non-emptiness test: the '
